@@ -15,7 +15,7 @@ THEOREMS = ["C12_through_points", "C12_newton_form", "C12_polynomial", "C12_deri
             "C12_newton_diff", "C12_constructor_3", "C12_constructor_4", "C12_duplicates",
             "C12_newton_diff_any", "C12_compute_table_any", "C12_call_any", "C12_interpolates_any",
             "C12_derivative_any", "C12_derivative_two", "C12_refused_any",
-            "C12_root_step", "C12_root_sound", "C12_root_witness", "C12_grid_b64", "C12_grid_found"]
+            "C12_root_step", "C12_root_sound", "C12_root_witness", "C12_root_any", "C12_grid_b64", "C12_grid_found"]
 PROOF_TIMEOUT = {"quick": 1500, "thorough": 3000}
 EXHAUSTIVE = False
 MANIFEST = {
@@ -24,7 +24,8 @@ MANIFEST = {
              "invariant - proved by induction on the loop fuel in the real-number instance for ANY table object whose "
              "__call__/derivative return a float or raise ValueError (assumption shown satisfiable on a symbolic 3-point table): "
              "for max_iter < 5000 the outcome is a float inside the ordered, clamped [xl, xh] with |interpolant| <= tol, or "
-             "ValueError - nothing else (the model's OutOfFuel is impossible).  PARTIAL CORRECTNESS: that a root is returned for "
+             "ValueError - nothing else (the model's OutOfFuel is impossible); for every stored table of 3..64 points this holds with "
+             "no assumption (callees proved total).  PARTIAL CORRECTNESS: that a root is returned for "
              "every sign change is not proved.  ANY n (1..64, symbolic stored lists, by induction over the generated loops + "
              "Spec/Newton.v): _newton_diff = divided differences, _compute_table stores them, __call__ returns y_j at every node "
              "and between the nodes the Horner value of the Newton form, which passes through all points and reproduces every "
@@ -57,7 +58,7 @@ CLAUSES = {
     "independent of the order of the points and of the input form": "proved [ideal, n = 3 and n = 4 ONLY, symbolic x1<x2<x3(<x4) at least tol apart: all 6 resp. 24 orders x (two lists, two tuples, interleaved scalars) and the copy constructor give the identical object: C12_constructor_3, C12_constructor_4]; n = 2..9 searched; call sequences copy/set searched (key copy-shares-state)",
     "abscissae outside the table refused with ValueError": "proved [ideal, ANY n: __call__ beyond the tolerance of every node and outside [x_0, x_(n-1)] gives ValueError (C12_refused_any, n >= 1), derivative immediately outside (C12_derivative_any, n >= 3); within tol of an end node __call__ returns that node's ordinate]; n = 3 symbolic version C12_refused; searched n = 2..9",
     "duplicated abscissae refused with ValueError": "proved [ideal, n = 3, two-list form ONLY, any pair closer than tol: C12_duplicates]; other sizes/forms searched (exact and 5e-11-apart duplicates) + correspondence",
-    "root(): returned abscissa inside [xl, xh] (ordered, clamped) with |interpolant| <= tol": "proved [ideal, ANY table, max_iter in 0..4999; partial correctness: termination with a root unproved - the outcome is such a float or ValueError, nothing else (OutOfFuel/TypeError/Unsupported excluded): C12_root_step (loop, fuel induction), C12_root_sound (entry paths in-table incl. xl = 0, reversed, reversed+outside, clamped-low, default; 'only xh above the table' not a separate theorem); callee assumption (__call__/derivative return float or ValueError) discharged for the symbolic 3-point table: C12_root_witness]; proved [B64, explicit grid of 24 tables x all unequal limit pairs: C12_grid_b64, 756 roots found: C12_grid_found]",
+    "root(): returned abscissa inside [xl, xh] (ordered, clamped) with |interpolant| <= tol": "proved [ideal, ANY table, max_iter in 0..4999; partial correctness: termination with a root unproved - the outcome is such a float or ValueError, nothing else (OutOfFuel/TypeError/Unsupported excluded): C12_root_step (loop, fuel induction), C12_root_sound (entry paths in-table incl. xl = 0, reversed, reversed+outside, clamped-low, default; 'only xh above the table' not a separate theorem); callee assumption (__call__/derivative return float or ValueError) discharged for EVERY stored table of n = 3..64 points (C12_root_any: no assumption left; __call__/derivative proved total by loop induction) and for the symbolic 3-point table (C12_root_witness)]; proved [B64, explicit grid of 24 tables x all unequal limit pairs: C12_grid_b64, 756 roots found: C12_grid_found]",
     "root(): a value IS returned whenever the interpolant changes sign (convergence within max_iter)": "unproved (searched): not provable in general; holds on the B64 grid (C12_grid_b64: ValueError only without a clear sign change) and in the search on tables with |y| <= 1000",
     "minmax(): abscissa inside the interval where the derivative vanishes": "proved [B64, grid only: C12_grid_b64 with the independent Lagrange derivative]; no ideal-instance theorem; searched",
     "conjunction helpers return the time of zero interpolated difference": "unproved (searched): independent Lagrange interpolation of the coordinate differences, 1e-9; bit-exact correspondence of the four helpers",
@@ -67,7 +68,7 @@ CLAUSES = {
 
 def proof_files(tier):
     return (["C12_defs.v", "C12_tac.v", "C12_nd.v", "C12_init3a.v", "C12_init3b.v", "C12_init3c.v", "C12_dup3.v",
-             "C12_init4a.v", "C12_init4b.v", "C12_init4c.v", "C12_ctor3.v", "C12_ctor4.v", "C12_ideal.v", "C12_root.v", "C12_witness.v", "C12_gen.v", "C12_gend.v"]
+             "C12_init4a.v", "C12_init4b.v", "C12_init4c.v", "C12_ctor3.v", "C12_ctor4.v", "C12_ideal.v", "C12_root.v", "C12_witness.v", "C12_gen.v", "C12_gend.v", "C12_rootany.v"]
             + ["C12_grid_%d.v" % k for k in range(NGRID)] + ["C12_main.v", "C12.v"])
 
 NGRID = 8
